@@ -11,6 +11,7 @@ import io
 import contextlib
 import json
 import multiprocessing
+import os
 import random
 
 import numpy as np
@@ -480,6 +481,66 @@ def gen_behaviours(consts, emit_ops, timeout):
     return behs, res
 
 
+def record_test_suite():
+    """Run the repository's own tests on a scratch copy of /repo's working tree with harness/testrecorder.py loaded;
+    return (recorded transitions, statistics).  The scratch copy lives outside /repo and /verif and is removed."""
+    import shutil
+    import subprocess
+    import sys
+    import tempfile
+    here = os.path.dirname(os.path.dirname(os.path.abspath(__file__)))
+    repo = os.environ.get("MOFUN_REPO", "/repo")
+    tmp = tempfile.mkdtemp(prefix="mofun-rec-")
+    try:
+        dst = os.path.join(tmp, "repo")
+        shutil.copytree(repo, dst, ignore=shutil.ignore_patterns(".git", "docs", "perf", "__pycache__", "*.egg-info", ".pytest_cache"))
+        rec = os.path.join(tmp, "events.json")
+        env = dict(os.environ, PYTHONPATH=dst + os.pathsep + here, MOFUN_VERIF_RECORD=rec, PYTHONDONTWRITEBYTECODE="1")
+        p = subprocess.run([sys.executable, "-m", "pytest", "-q", "-p", "no:cacheprovider", "-p", "harness.testrecorder", "tests"],
+                           cwd=dst, env=env, stdout=subprocess.PIPE, stderr=subprocess.STDOUT, text=True, timeout=1500)
+        if not os.path.exists(rec):
+            raise MachineryError("recording the repository's tests produced nothing (pytest rc=%s):\n%s" % (p.returncode, p.stdout[-2000:]))
+        with open(rec) as fh:
+            d = json.load(fh)
+        d["stats"]["pytest_rc"] = p.returncode
+        d["stats"]["pytest_summary"] = p.stdout.strip().splitlines()[-1][:200] if p.stdout.strip() else ""
+        return d["events"], d["stats"]
+    finally:
+        shutil.rmtree(tmp, ignore_errors=True)
+
+
+def recorded_tests(out, prop, ops, only_test=None):
+    """Trace validation of what the repository's own tests execute: every outermost Atoms operation they perform is
+    one observed transition, judged by Trace_AtomsAbs like any other; verdicts `blocked:` (inputs outside the
+    property's domain: unrepresentable numbers, inconsistent fixtures, expected exceptions) never alarm."""
+    events, stats = record_test_suite()
+    uniq, tests = {}, {}
+    for e in events:
+        if only_test is not None and e.get("test") != only_test:
+            continue
+        item = {k: v for k, v in e.items() if k != "test"}
+        key = json.dumps(item, sort_keys=True)
+        uniq.setdefault(key, item)
+        tests.setdefault(key, e.get("test", ""))
+    keys = list(uniq)
+    verdicts = shard_validate("Trace_AtomsAbs", TRACE_CFG, [uniq[k] for k in keys], shards=4, workers=1, tag="rec-" + prop) if keys else []
+    tally = {}
+    for k, v in zip(keys, verdicts):
+        item = uniq[k]
+        tally["%s/%s" % (item["op"], v)] = tally.get("%s/%s" % (item["op"], v), 0) + 1
+        if item["op"] not in ops:
+            continue
+        if v == "ok":
+            out.case(item)
+        elif not v.startswith("blocked"):
+            out.case(item)
+            out.violation({"op": "recorded:" + item["op"], "clause": v, "flags": flags_of(item), "exc": item["exc"], "exc_msg": ""},
+                          {"recorded_test": tests[k], "observed": item})
+    out.evaluations += len(events)
+    out.traces += len(keys)
+    out.notes["recorded_from_repo_tests"] = dict(stats, distinct=len(keys), verdicts=dict(sorted(tally.items())))
+
+
 def run(prop, tier, replay=None):
     out = Outcome(prop, tier)
     consts = dict(TIERS[tier][prop])
@@ -493,6 +554,9 @@ def run(prop, tier, replay=None):
     if replay:
         with open(replay) as fh:
             rp = json.load(fh)
+        if "recorded_test" in rp["case"]:
+            recorded_tests(out, prop, ops, only_test=rp["case"]["recorded_test"])
+            return out.finish()
         cases = [(rp["case"]["behaviour"], Rendering(**rp["case"]["rendering"]), rp["case"]["variant"])]
     else:
         # 1. model-check the specification (all workers)
@@ -581,6 +645,8 @@ def run(prop, tier, replay=None):
                        "exc_msg": rec.get("exc_msg", "")}
                 out.violation(sig, {"behaviour": b[: n + 1], "rendering": R.describe(), "variant": var, "step": n,
                                     "observed": rec})
+    if not replay:
+        recorded_tests(out, prop, ops)
     if prop == "C09" and not replay:
         from . import lmpops
         lmpops.writable_check(out, behs, sd, 1200 if tier == "quick" else 20000)
